@@ -102,6 +102,10 @@ REWRITES = {
     "procs_filter_map_flat_map": ("re", r"(?s)program\s*\.global_declarations\s*\.iter\(\)\s*\.filter_map\((\|gd\| match gd\.as_ref\(\) \{.*?\})\)\s*\.flat_map\((\|\(pd, offset\)\| find_procs_in_proc\(pd, offset, name\))\)\s*\.collect\(\)", r"filter_map_flat_map_collect(&program.global_declarations, \1, |pd_offset| { let (pd, offset) = pd_offset; find_procs_in_proc(pd, offset, name) })", "xs.iter().filter_map(f).flat_map(g).collect() -> shim with the same std body (R8)"),
     "filter_map_filter_collect": ("re", r"(?s)(pd\s*\.\w+)\s*\.iter\(\)\s*\.filter_map\((\|\w+\| match \w+\.as_ref\(\) \{.*?\n\s*\})\)\s*\.filter\((\|ident\| [^\n]*?)\)\s*\.collect\(\)", r"filter_map_filter_collect(&\1, \2, \3)", "xs.iter().filter_map(f).filter(p).collect() -> shim with the same std body (R8)"),
     "find_types_closure_to_call": ("re", r"(?s)\.flat_map\(\|gd\| \{.*\}\)\s*\.collect\(\)\s*\}\s*$", ".flat_map(|gd| find_types_in_decl(gd, name))\n        .collect()\n}", "R13 for a closure: the per-declaration closure of find_types, verified separately as the lifted `find_types_in_decl`, is replaced inside its enclosing function by a call of that function"),
+    "proc_doc_markup": ("re", r"(?s)proc_entry\.doc\.as_ref\(\)\.map\(\|doc\| \{.*?\}\)\s*\}\);", "doc_markup(&proc_entry.doc);", "the rendering of the doc comment (MarkupContent, String concatenation) -> opaque shim with that expression as body"),
+    "proc_entry_label": ("re", r"\bproc_entry\.to_string\(\)", "entry_label(proc_entry)", "Display of the entry (format!) -> opaque shim"),
+    "call_tokens_slice": ("re", r"&cursor\.doc\.tokens\[(call_stmt\.to_range\(\)(?:\.shift\(offset\))?)\]", r"slice_range(&cursor.doc.tokens, \1)", "&v[r] (Index<Range<usize>>) -> shim with the std indexing, panics unless r.start <= r.end <= len"),
+    "cursor_tokens_from": ("re", r"&cursor\.doc\.tokens\[gd\.offset\.\.\]", "slice_from(&cursor.doc.tokens, gd.offset)", "&s[a..] (RangeFrom indexing) -> shim, panics iff a > len"),
     "box_as_ref": ("re", r"\bboxed\.as_ref\(\)", r"&**boxed", "Box::as_ref on &Box<T> replaced by its std body `&**self` (no vstd spec; generic over the allocator)"),
     "self_name_clone_to_callee": ("re", r"self\.name\.value\.clone\(\)", r"string_clone(&callee.value)", "captured field path `self.name` of the lifted loop body becomes the parameter `callee` (R6); String::clone -> shim"),
     "ref_ne": ("re", r"\barg_type != param_type\b", r"!datatype_eq(arg_type, param_type)", "`!=` on two `&DataType` (PartialEq for references) written as the derived comparison it resolves to"),
@@ -506,6 +510,9 @@ def parse_seg(seg):
         return ("derive", seg[len("derive "):].strip())
     if seg.startswith("closure "):
         p = seg[len("closure "):].strip()
+        nth = re.match(r"^(\|.*\|)\s+nth\s+(\d+)\s+of\s+(\d+)$", p)
+        if nth:
+            return ("closure", (rscan.norm(nth.group(1)[1:-1]), int(nth.group(2)), int(nth.group(3))))
         if not (p.startswith("|") and p.endswith("|")):
             raise LostAnchor(f"bad closure segment {seg}")
         return ("closure", rscan.norm(p[1:-1]))
@@ -612,11 +619,12 @@ def resolve(file, segs):
             r.kind = "closure"
             return r
         if kind == "closure":
-            found = rscan.find_closures(src, toks, lo, hi, name)
-            if len(found) != 1:
-                raise LostAnchor(f"{file} :: closure |{name}| resolves {len(found)} times")
+            cname, ck, cn = name if isinstance(name, tuple) else (name, 0, 1)
+            found = rscan.find_closures(src, toks, lo, hi, cname)
+            if len(found) != cn:
+                raise LostAnchor(f"{file} :: closure |{cname}| resolves {len(found)} times, expected {cn}")
             r = Resolved()
-            r.src, r.toks, r.closure = src, toks, found[0]
+            r.src, r.toks, r.closure = src, toks, found[ck]
             r.chain = chain
             r.kind = "closure"
             return r
